@@ -1497,6 +1497,9 @@ def process_template(tpl_path: str, repo: str, variant: dict | None = None) -> U
             continue
         if dm.group(1) == "assoc":
             kv = _parse_kv(dm.group(2))
+            while i + 1 < len(tpl) and tpl[i + 1].lstrip().startswith("//@+"):
+                kv.update(_parse_kv(tpl[i + 1].split("//@+", 1)[1]))
+                del tpl[i + 1]
             src = open(os.path.join(repo, kv["file"])).read()
             mm = None
             for hm in re.finditer(r"\bimpl\b([^{;]*)\{", src):
@@ -1504,16 +1507,42 @@ def process_template(tpl_path: str, repo: str, variant: dict | None = None) -> U
                     toks_ = lex(src); m_ = match_brackets(toks_)
                     o_ = next(ix for ix, tk in enumerate(toks_) if tk.start == hm.end() - 1)
                     blk = src[toks_[o_].end:toks_[m_[o_]].start]
-                    am = re.search(r"\btype\s+%s\s*=\s*([^;]+);" % re.escape(kv["name"]), blk)
+                    if kv.get("kind") == "const":
+                        am = re.search(r"\bconst\s+%s\s*:\s*([^=;]+)=\s*([^;]+);" % re.escape(kv["name"]), blk)
+                    else:
+                        am = re.search(r"\btype\s+%s\s*=\s*([^;]+);" % re.escape(kv["name"]), blk)
                     if am:
                         mm = (am, toks_[o_].end)
                     break
             if mm is None:
-                raise ExtractError("anchor lost: assoc type %s in impl /%s/ of %s" % (kv["name"], kv["impl"], kv["file"]))
+                raise ExtractError("anchor lost: assoc %s %s in impl /%s/ of %s" % (kv.get("kind", "type"), kv["name"], kv["impl"], kv["file"]))
             am, base = mm
-            text = "type %s = %s;" % (kv["name"], am.group(1).strip())
+            if kv.get("kind") == "const":
+                # an associated const becomes a function returning the real initializer expression, with the template's
+                # postcondition:  const NAME: T = E;  ->  pub fn <as>() -> (res: T) ensures <ensures> { E }
+                ty = re.sub(r"&\s*(?!')", "&'static ", am.group(1).strip())
+                lab = ("   // OBL:" + kv["label"]) if kv.get("label") else ""
+                text = "pub fn %s() -> (res: %s)\n    ensures %s,%s\n{ %s }" % (kv["as"], ty, kv.get("ensures", "true"), lab, " ".join(am.group(2).split()))
+            else:
+                text = "type %s = %s;" % (kv["name"], am.group(1).strip())
             for pair in [x for x in kv.get("sub", "").split(";") if x]:
                 x, y = pair.split("=>"); text = text.replace(x, y)
+            if kv.get("kind") == "const":
+                fid_ = kv.get("id", kv["as"])
+                for l in text.split("\n"):
+                    if l.lstrip().startswith("ensures "):
+                        if variant.get("ensures_false") == fid_:
+                            l = l.replace("ensures ", "ensures false, /*CANARY*/ ", 1)
+                        gl = GenLine(l, ("tpl", i + 1, kv.get("label"), "contract"))
+                    else:
+                        gl = GenLine(l, ("src", kv["file"], _line_of(src, base + am.start())))
+                    gl.fid = fid_
+                    res.lines.append(gl)
+                res.functions.append({"id": fid_, "kind": "fn", "fn": kv["name"], "file": kv["file"],
+                                      "lines": [_line_of(src, base + am.start()), _line_of(src, base + am.end())],
+                                      "sha256": hashlib.sha256(am.group(0).encode()).hexdigest(), "rules": {"assoc const -> fn": 1}})
+                i += 1
+                continue
             res.lines.append(GenLine(text, ("src", kv["file"], _line_of(src, base + am.start()))))
             res.functions.append({"id": "assoc:%s:%s" % (kv["impl"], kv["name"]), "kind": "item", "file": kv["file"],
                                   "lines": [_line_of(src, base + am.start())] * 2, "sha256": hashlib.sha256(text.encode()).hexdigest(), "rules": {}})
